@@ -152,13 +152,6 @@ fn exec_img(case: &Value) -> Value {
     for t in 0..tris_in.len() {
         let tri = Tri([0, 1, 2].map(|i| ClipVert::new(verts[3 * t + i].clone())));
         let mut out = vec![];
-        // fan edges of culled faces are not drawn: they make nothing ambiguous
-        let v = |i: usize| tris_in[t]["v"][i].as_array().unwrap().iter().map(|c| c.as_i64().unwrap()).collect::<Vec<_>>();
-        let (a, b, c) = (v(0), v(1), v(2));
-        let det = a[0] * (b[1] * c[3] - b[3] * c[1]) - a[1] * (b[0] * c[3] - b[3] * c[0]) + a[3] * (b[0] * c[1] - b[1] * c[0]);
-        if (cull == 1 && det > 0) || (cull == 2 && det <= 0) {
-            continue;
-        }
         view_frustum::clip(&[tri][..], &mut out);
         if out.len() > 1 {
             // every edge of an output triangle that is shared with another one
